@@ -18,6 +18,8 @@ from core import Case, q, qs, qpts, fr, show_list, show_pts, show_pts2
 import gen as G
 
 PID = 'C16'
+FLOAT_KINDS = {'dot', 'cross', 'vmul', 'vsum', 'vmean', 'transpose', 'mmul', 'mvec', 'mscal', 'binom', 'linspace', 'vgen', 'pmid', 'ptrans'}      # float-mode companion (core.float_companion)
+FLOAT_TOL = 1e-9
 STATS = {}
 PARTIAL = [
     "matrixDeterminant_eq_det_partial: `matrix_determinant = Matrix.det` is proved under the hypothesis that Doolittle on the row-permuted "
